@@ -239,7 +239,10 @@ CLAIMED["C01"] = (
     "present and guard what they should; (P7) every byte offset used to slice a str (Index<Range>, split_at) is "
     "derived from the text (search results, lengths, span/cursor offsets) and every literal or quotient component of "
     "it is covered on all paths by an ASCII/boundary test (starts_with/ends_with/strip_prefix with an ASCII constant, "
-    "is_char_boundary, checked str::get, ASCII needle of find) or a reviewed entry.  Interpreter recursion is decided under C11.  These are necessary "
+    "is_char_boundary, checked str::get, ASCII needle of find) or a reviewed entry; (P8) in the builtin modules every "
+    "unwrap/expect is of an infallible source, is dominated by a test establishing the success case for its source "
+    "(kind()==String / ValueRepr arm / is_safe / escape() result for as_str, is_some on the same value), or is a "
+    "reviewed entry.  Interpreter recursion is decided under C11.  These are necessary "
     "conditions that realistic regressions break (a dropped guard, a new unchecked add, an unbounded capacity); "
     "absence of panics over the whole engine, VM operand-stack discipline and the stack cost of data recursion are "
     "NOT decided.",
